@@ -521,6 +521,10 @@ func mapValueStructField(value reflect.Value) map[reflect.Value]reflect.StructFi
 }
 
 func convert(val reflect.Value) interface{} {
+	if !val.IsValid() { // the dereference of a nil pointer field
+		return nil
+	}
+
 	switch reflect.Indirect(val).Kind() {
 	case reflect.Array, reflect.Slice:
 		res := make([]interface{}, val.Len())
